@@ -28,6 +28,7 @@ type TAct struct {
 	SelfClose int               `json:"self_close,omitempty"` // monitor: an API call (CbAct, default Close()) from inside its n-th callback
 	CbAct     string            `json:"cb_act,omitempty"`
 	Stateful  bool              `json:"stateful,omitempty"` // subf/clonef: the node's filter is one stateful user object, mutated and re-submitted by pointer
+	ReuseOf   int               `json:"reuse_of,omitempty"` // monitor: > 0 = attach the Handler value of monitor node ReuseOf-1 (if that monitor is done)
 	NoInit    bool              `json:"no_init,omitempty"` // monitor: the handler has no OnInitialize
 	Block     bool              `json:"block,omitempty"`
 	Async     bool              `json:"async,omitempty"`
@@ -322,6 +323,12 @@ func (t *treeRun) act(a TAct) {
 			return
 		}
 		h.NextMonitorNoInit = a.NoInit && a.Kind == "monitor"
+		h.NextReuseHandlerOf = nil
+		if a.Kind == "monitor" && a.ReuseOf > 0 {
+			if r := t.node(a.ReuseOf - 1); r != nil && r.Mon != nil && detsim.IsClosed(r.Mon.Done()) {
+				h.NextReuseHandlerOf = r
+			}
+		}
 		h.NextStateful = a.Stateful && (a.Kind == "subf" || a.Kind == "clonef")
 		n, err := h.MakeNode(parent, a.Kind, a.Filter, a.Reader)
 		if err != nil {
